@@ -70,8 +70,10 @@ func (r *Reader) Read(p []byte) (int, error) {
 		// words, check for trailing data after a full-length final chunk.
 		// Hopefully, the underlying reader supports returning EOF even if it
 		// had previously returned an EOF to ReadFull.
-		if n, err := r.src.Read(make([]byte, 1)); err == nil || n > 0 {
-			// A Reader may return data together with io.EOF.
+		// io.ReadFull copes with the delivery schedules the io.Reader contract
+		// allows: a byte returned together with io.EOF is data, and a Read that
+		// returns 0, nil is not the end of the input.
+		if _, err := io.ReadFull(r.src, make([]byte, 1)); err == nil {
 			r.err = errors.New("trailing data after end of encrypted file")
 		} else if err != io.EOF {
 			r.err = fmt.Errorf("non-EOF error reading after end of encrypted file: %w", err)
